@@ -256,7 +256,7 @@ fn gen_case(seed: u64, index: u64, tier: Tier) -> Case {
 			writes_a: rng.urange(1, 7),
 			writes_b: rng.urange(0, 4),
 			callbacks: rng.urange(2, 6),
-			switch_prob: *rng.pick(&[0.1, 0.3, 0.6, 0.9]),
+			switch_prob: *rng.pick(&[0.03, 0.1, 0.3, 0.6, 0.9]),
 			warm: rng.chance(0.6),
 		},
 		_ => {
